@@ -152,7 +152,56 @@ fn variable_paths(req: &Value) -> Value {
     }
 }
 
+/// C18 P3: two nodes joined by parallel directed edges with the given weights (creation order = list order); the total weight A*
+/// and the Dijkstra search report must be the least of them.
+fn astar_parallel(req: &Value) -> Value {
+    let g = GraphEngine::new();
+    let a = g.create_node("N", HashMap::new()).unwrap();
+    let b = g.create_node("N", HashMap::new()).unwrap();
+    let ws: Vec<f64> = req["weight_bits"].as_array().into_iter().flatten().filter_map(Value::as_u64).map(f64::from_bits).collect();
+    for w in &ws {
+        let mut p = HashMap::new();
+        p.insert("weight".to_string(), graph_engine::PropertyValue::Float(*w));
+        g.create_edge(a, b, "T", p, true).unwrap();
+    }
+    let best = ws.iter().copied().fold(f64::INFINITY, f64::min);
+    let cfg = graph_engine::AStarConfig::new().direction(graph_engine::Direction::Outgoing);
+    let astar = g.astar_path(a, b, &cfg).ok().and_then(|r| r.total_weight());
+    let dijkstra = g.find_weighted_path(a, b, "weight").ok().map(|p| p.total_weight);
+    json!({"weights": ws, "astar_total": astar, "dijkstra_total": dijkstra, "cheapest": best, "violates": astar != Some(best) || dijkstra != Some(best)})
+}
+
+/// C18 P4: count_triangles against the textbook count (unordered node triples that are pairwise adjacent) on an undirected simple graph
+fn triangles(req: &Value) -> Value {
+    let g = GraphEngine::new();
+    let n = req["n"].as_u64().unwrap_or(3) as usize;
+    let created: Vec<u64> = (0..n).map(|_| g.create_node("N", HashMap::new()).unwrap()).collect();
+    // the witness fixes how the node ids compare: abstract node i gets the created id of the same rank
+    let wid: Vec<u64> = req["node_ids"].as_array().map_or_else(|| (0..n as u64).collect(), |a| a.iter().filter_map(Value::as_u64).collect());
+    let rank = |i: usize| wid.iter().filter(|x| **x < wid[i]).count();
+    let nodes: Vec<u64> = (0..n).map(|i| if wid.len() == n { created[rank(i)] } else { created[i] }).collect();
+    let mut adj = vec![vec![false; n]; n];
+    for e in req["edges"].as_array().into_iter().flatten() {
+        let (a, b) = (e[0].as_u64().unwrap_or(0) as usize, e[1].as_u64().unwrap_or(0) as usize);
+        if a == b || adj[a][b] { continue; }
+        adj[a][b] = true; adj[b][a] = true;
+        g.create_edge(nodes[a], nodes[b], "T", HashMap::new(), false).unwrap();
+    }
+    let mut want = 0usize;
+    for a in 0..n { for b in a + 1..n { for c in b + 1..n { if adj[a][b] && adj[b][c] && adj[a][c] { want += 1; } } } }
+    match g.count_triangles(&graph_engine::TriangleConfig::default()) {
+        Ok(r) => json!({"counted": r.triangle_count, "triangles": want, "violates": r.triangle_count != want}),
+        Err(e) => json!({"err": e.to_string(), "violates": true}),
+    }
+}
+
 pub fn handle(op: &str, req: &Value) -> Option<Value> {
+    if op == "graph_triangles" {
+        return Some(triangles(req));
+    }
+    if op == "graph_astar_parallel" {
+        return Some(astar_parallel(req));
+    }
     if op == "graph_variable_paths" {
         return Some(variable_paths(req));
     }
